@@ -1678,6 +1678,10 @@ def check(ck):
         return bool(vals) and all(v is INHERITED_CA for v in vals)
 
     upcalls = [c for c in rb.calls("update_recursive")]
+    # a recursive field updated under a name that is computed (taken from a table, a loop variable): which field a call
+    # updates is then not written where the call is, and neither is when -- no verdict rather than "nothing is inherited"
+    dyn = [c for c in upcalls if upd_key(c) is None and rb.nodes(c)]
+    ck.need(not dyn, "memento_run_batch: update_recursive is called with a field name that is not a literal (`%s`)" % (A.short(dyn[0], 60) if dyn else ""))
     ups = [c for c in upcalls if upd_key(c) == "context_args"]
     ok2 = len(ups) == 1 and bool(rb.nodes(ups[0]))
     un = rb.nodes(ups[0]) if ok2 else []
@@ -1847,6 +1851,7 @@ def check(ck):
         return None
 
     sets = []
+    merged_pours = set()
     for s in ru.stmts((ast.Assign, ast.Expr)):
         if not ru.nodes(s):
             continue
@@ -1865,6 +1870,14 @@ def check(ck):
             sets.append((s, owner, c.args[0].keys[0], c.args[0].values[0]))
         elif owner is not None and A.call_attr(c) == "__setitem__" and len(c.args) == 2:
             sets.append((s, owner, c.args[0], c.args[1]))
+        elif owner is not None and A.call_attr(c) == "update" and len(c.args) == 1 and not c.keywords and A.norm(owner) != "self":
+            # <new object's dict>.update(<merged>), merged = {**<self's dict>, key: value} built beforehand: poured in and
+            # replaced in one go (the display puts the entries in that order)
+            d_ = strip_cast(ru.expand(c.args[0], ru.nodes(s)[0]))
+            if isinstance(d_, ast.Dict) and len(d_.keys) == 2 and d_.keys[0] is None and d_.keys[1] is not None \
+                    and dict_of(d_.values[0]) is not None and A.norm(dict_of(d_.values[0])) == "self":
+                sets.append((s, owner, d_.keys[1], d_.values[1]))
+                merged_pours.add(id(s))
         elif A.norm(c.func) == "object.__setattr__" and len(c.args) == 3:
             sets.append((s, c.args[0], c.args[1], c.args[2]))
     if len(sets) == 1 and len(rp) >= 3:
@@ -1883,9 +1896,14 @@ def check(ck):
                 return owner_ is not None and src_ is not None and A.norm(src_) == "self" and bool(ru.nodes(c_)) \
                     and same_def(origin(ru, owner_, ru.nodes(c_)[0]), obj) and at in ru.cfg.reach(ru.nodes(c_), include_start=False)
 
-            copied = (A.call_attr(mk) in ("copy", "deepcopy") and "self" in A.names_in(mk)) or any(pours_self_in(c_) for c_ in ru.calls("update"))
+            copied = (A.call_attr(mk) in ("copy", "deepcopy") and "self" in A.names_in(mk)) or any(pours_self_in(c_) for c_ in ru.calls("update")) \
+                or id(s0) in merged_pours
             rets = ru.returns()
             oku = copied and bool(rets) and all(r.value is not None and same_def(origin(ru, r.value, ru.nodes(r)[0]), obj) for r in rets if ru.nodes(r))
+    if not sets:
+        # entries handed over as `**<a mapping built at run time>`: which entry is set is not written in the call
+        spread = [c for c in ru.calls() if any(k.arg is None for k in c.keywords) and ru.nodes(c)]
+        ck.need(not spread, "RecursiveContext.update: an entry is set through the ** of a computed mapping (`%s`)" % (A.short(spread[0], 60) if spread else ""))
     ck.ob(R2, ru.key(None, "replace"), oku, "update() replaces the field on a copy" if oku else
           "RecursiveContext.update no longer sets result[key] = value on a copy", ru.where())
 
@@ -1899,6 +1917,9 @@ def check(ck):
             e = strip_cast(f.expand(r.value, f.nodes(r)[0])) if r.value is not None else None
             if not (isinstance(e, ast.Call) and A.norm(e.func) in ("InvocationContext", "type(self)", "self.__class__")):
                 return False
+            # (the two parts handed over as `**<a mapping built at run time>`: not written in the call, no verdict)
+            ck.need(not any(k.arg is None for k in e.keywords) and not any(isinstance(a_, ast.Starred) for a_ in e.args),
+                    "%s: the new context is built from the */** of a computed collection (`%s`)" % (f.qual, A.short(e, 60)))
             a0, a1 = A.arg_or_kw(e, 0, "recursive"), A.arg_or_kw(e, 1, "local")
             got = (A.norm(a0), A.norm(a1))
             upd = "self.%s.update(%s, %s)" % (changed, p[1], p[2])
